@@ -400,6 +400,11 @@ impl MsgConfig {
         }
     }
 
+    /// Build from an arbitrary (possibly generated, unbounded-memory-free) source into `out`.
+    pub fn build_from_reader<R: Read, W: Write>(&self, src: R, out: W) -> pgp::errors::Result<()> {
+        self.with_source(MessageBuilder::from_reader("", src), out)
+    }
+
     pub fn build(&self, payload: &[u8]) -> pgp::errors::Result<Vec<u8>> {
         let mut out = Vec::new();
         self.build_to(payload, None, &mut out)?;
